@@ -102,8 +102,40 @@ def generic_run_case(families, task):
         rt = engine.analyze(fam.twin, 30.0, 15.0)
         r['twin'] = rt['verdict']
         r['twin_paths'] = rt['paths']
+    if r['verdict'] in ('CONFIRMED', 'INCOMPLETE') and hasattr(case, 'native_probes'):
+        native_crosscheck(fam, task, r)
     r['wall_s'] = round(time.time() - t0, 3)
     return r
+
+
+def native_crosscheck(fam, task, r):
+    """Validation of the encoding: the same harness is run by the real
+    interpreter (no tracer, no stubs, real floats) on a few concrete arguments
+    of the case.  CrossHair's models of built-ins are not CPython (e.g. str(x)
+    on a str subclass ignores an overridden __str__): where the native run
+    fails although the symbolic run passed, the native failure is what counts -
+    it is handed to the runner as a counterexample and replayed like any other."""
+    probe = fam.make(task['params'])
+    probe.native = True
+    probe.known = set(task.get('known_keys', ()))
+    fam.install(probe)
+    n = 0
+    try:
+        for args in probe.native_probes():
+            n += 1
+            try:
+                ok = probe.run_native(args)
+            except Exception as e:      # a harness problem, not a verdict
+                r['native_crosscheck_error'] = '%s: %s' % (type(e).__name__, e)
+                break
+            if ok is False:
+                r.update(verdict='REFUTED', args=args,
+                         message='native cross-check: the real interpreter fails on %r where the symbolic run '
+                                 'did not (%s)' % (args, (probe.last_fail or ('?',))[0]))
+                r['native_crosscheck_failed'] = True
+                break
+    finally:
+        r['native_crosschecks'] = n
 
 
 def generic_replay_case(families, task):
